@@ -74,6 +74,7 @@ class Sched:
         self.times: list[float] = []            # virtual time of each event
         self._aborted: str | None = None
         self.abort_index: int | None = None     # number of events logged when the run was cut
+        self.pending_at_abort: dict[str, str] = {}
         self.lock = _real_threading.Lock()
         self.listeners: list[Callable[[tuple], None]] = []
         self.interrupt_at: int | None = None    # k-th yield of the control thread raises KeyboardInterrupt
@@ -88,6 +89,8 @@ class Sched:
     def aborted(self, reason: str | None) -> None:
         if self._aborted is None and reason is not None:
             self.abort_index = len(self.events)
+            self.pending_at_abort = {t.name: f"{t.pending.kind}:{t.pending.obj}" for t in self.threads
+                                     if not t.done and t.pending is not None}
         self._aborted = reason
 
     # ---- thread bookkeeping ---------------------------------------------------------------
